@@ -407,7 +407,7 @@ pub fn run<P: Prop>(ctx: &Ctx) -> i32 {
             cases,
             rng_seed: RngSeed::Fixed(seed),
             failure_persistence: None,
-            max_shrink_iters: if ctx.thorough { 4000 } else { 1500 },
+            max_shrink_iters: if ctx.thorough { 3000 } else { 400 },
             max_global_rejects: 1 << 20,
             max_local_rejects: 1 << 20,
             ..Config::default()
@@ -415,11 +415,21 @@ pub fn run<P: Prop>(ctx: &Ctx) -> i32 {
         let mut runner = TestRunner::new(config);
         let strategy = P::strategy(ctx);
         let first_failure: RefCell<Option<(P::Case, Failure)>> = RefCell::new(None);
-        let last_failure: RefCell<Option<Failure>> = RefCell::new(None);
+        let last_failure: RefCell<Option<(P::Case, Failure)>> = RefCell::new(None);
+        let failed_at: RefCell<Option<Instant>> = RefCell::new(None);
+        // shrinking is bounded by wall-clock time as well (slow failures, e.g. watchdog expiries,
+        // would otherwise take hours): after the budget every further candidate "passes", which
+        // makes proptest settle on the smallest failing case found so far
+        let shrink_budget = std::time::Duration::from_secs(if ctx.thorough { 300 } else { 45 });
         let result = runner.run(&strategy, |case| {
             if acc.borrow().poisoned && acc.borrow().failed {
                 // cannot shrink reliably in a poisoned process: accept everything
                 return Ok(());
+            }
+            if let Some(t) = *failed_at.borrow() {
+                if t.elapsed() > shrink_budget {
+                    return Ok(());
+                }
             }
             match run_one::<P>(ctx, &known, &acc, &case) {
                 Ok(()) => Ok(()),
@@ -431,8 +441,9 @@ pub fn run<P: Prop>(ctx: &Ctx) -> i32 {
                     }
                     if first_failure.borrow().is_none() {
                         *first_failure.borrow_mut() = Some((case.clone(), f.clone()));
+                        *failed_at.borrow_mut() = Some(Instant::now());
                     }
-                    *last_failure.borrow_mut() = Some(f.clone());
+                    *last_failure.borrow_mut() = Some((case.clone(), f.clone()));
                     Err(TestCaseError::fail(f.signature.clone()))
                 },
             }
@@ -443,7 +454,13 @@ pub fn run<P: Prop>(ctx: &Ctx) -> i32 {
                 // re-validate the minimal case; fall back to the original failing case
                 let (orig_case, orig_f) = first_failure.borrow().clone().unwrap();
                 let mut chosen: Option<(P::Case, Failure, bool)> = None;
-                if !acc.borrow().poisoned {
+                let out_of_time = failed_at.borrow().map(|t| t.elapsed() > shrink_budget).unwrap_or(false);
+                if out_of_time {
+                    // the smallest case that was actually seen failing
+                    if let Some((c, f)) = last_failure.borrow().clone() {
+                        chosen = Some((c, f, false));
+                    }
+                } else if !acc.borrow().poisoned {
                     let reps = if P::SCHEDULE_DEPENDENT { 20 } else { 1 };
                     for _ in 0..reps {
                         if let Err(f) = P::exec(ctx, &minimal) {
